@@ -652,3 +652,56 @@ def extcom_name_consistency(prog, rep, rule):
                found='%d sub-types, %d names' % (len(by_sub), len(by_name)))
     rep.floor(rule, 'administrator-format codes', sum(len(v) for v in by_name.values()) and
               len([c for c in S if isinstance(c, int) and c >> 8 in (0, 1, 2)]), 6)
+
+
+def const_key_lookups(prog, rep, rule, pred, floor):
+    """TABLE[KEY] reads where both the table (a dictionary constant of yabgp.common.constants) and the key fold to
+    constants: the key must be in the table (a derived or re-written table that lost an entry makes the lookup raise
+    KeyError for a legal input)."""
+    cm = prog.module(CONS_Q)
+    n = 0
+    nf = 0
+    bad = []
+    for f in prog.all_functions():
+        if not pred(f):
+            continue
+        nf += 1
+        for x in ast.walk(f.node):
+            if not (isinstance(x, ast.Subscript) and isinstance(x.ctx, ast.Load)):
+                continue
+            r = prog.resolve_expr(x.value, f.module, f.cls) if isinstance(x.value, (ast.Attribute, ast.Name)) else None
+            if not (isinstance(r, tuple) and r[0] == 'assign' and r[1] is cm):
+                continue
+            tab = prog.try_fold(x.value, f.module, f.cls)
+            if not isinstance(tab, dict):
+                continue
+            k = prog.try_fold(x.slice, f.module, f.cls)
+            keys = [k] if k is not None else []
+            if k is None:
+                # a variable key under `key == CONST` / `key in (CONST, ...)`: the constants it can have here
+                ks = src_of(x.slice)
+                for t, truth in conds_at(f.node, x):
+                    if truth and isinstance(t, ast.Compare) and len(t.ops) == 1 and src_of(t.left) == ks:
+                        v = prog.try_fold(t.comparators[0], f.module, f.cls)
+                        if isinstance(t.ops[0], ast.Eq) and v is not None:
+                            keys = [v]
+                        elif isinstance(t.ops[0], ast.In) and isinstance(v, (list, tuple, set)):
+                            keys = list(v)
+            if not keys:
+                continue
+            n += 1
+            for k in keys:
+                try:
+                    if k not in tab:
+                        bad.append((f, x, k))
+                except TypeError:
+                    pass
+    for f, x, k in bad[:4]:
+        key = 'table-entry:%s' % src_of(x)
+        rep.bad(rule, key, file=f.file, line=x.lineno, func=f.qualname,
+                found='%s: the table has no entry %r, the lookup raises KeyError on a legal input' % (src_of(x), k),
+                expected='every constant key looked up is in the table', key=key)
+    if not bad:
+        rep.ok(rule, 'table-entries', found='%d constant-key lookups in %d functions, all present' % (n, nf))
+    rep.floor(rule, 'constant-key table lookups', n, floor)
+    return n
